@@ -1,16 +1,22 @@
-(* Property C01 — mux -> demux round trip (theorems only).
+(* Property C01 — mux -> demux round trip (theorems only; proofs in Proofs/RoundTrip*.v).
    The round trip is a composition: (1) what the muxer emits for one WriteData is a run of packets on the stream's PID,
-   the first with payload_unit_start, counters consecutive (C05), whose payloads concatenate to the PES header followed
-   by the payload (C04/C12 writer); (2) the demuxer's accumulator turns such runs, under any interleaving with other
-   PIDs and tables, into exactly these groups, each once, in order, the last one at end of stream (C02_units_exact,
-   C07_per_pid); (3) parsePESData on header ++ payload returns the header with its derived fields and exactly the
-   payload (C12_parse_write_header).  The pieces proved so far are restated here; the composed statement is kept in
-   full as C01_roundtrip_full and is checked on every run by running the composed models against the composed
-   implementation (RunC01.v) and by the implementation-side oracle. *)
+   the first payload packet with payload_unit_start, counters consecutive (C05), whose payloads concatenate to the PES
+   header followed by the payload (C04_unit / C12 writer), preceded by the PAT;PMT pair when it is due (C17);
+   (2) every packet the muxer builds is 188 bytes that parsePacket turns back into the packet (C11_parse_write), and the
+   packet buffer hands them over one by one (C19_reader_refinement); (3) the demuxer's accumulator flushes a table
+   packet at once and a unit when the next unit of its PID starts or at end of stream (the accumulator lemmas of
+   C02 / C06); (4) parsePESData on header ++ payload returns the header with its derived fields and exactly the payload
+   (C12_parse_write_header), parsePSIData on the table payloads returns the PAT and the PMT (C13).
+   The pieces come first (C01_groups_are_units, C01_pes_roundtrip, C01_whole_packets), then one WriteData demultiplexed
+   alone (C01_roundtrip_one_unit), then whole histories (C01_roundtrip and its corollaries).  The composed models are
+   also run against the composed implementation on every check (Extract/RunC01.v) and an implementation-side oracle
+   checks the round trip against what was written. *)
 From Coq Require Import ZArith List Bool.
 Require Import Base.Bits Base.Iter Base.Wr Gen.Consts Gen.Types Gen.Preds Model.Packet Model.Pes Model.Pool Model.PoolRun
-  Model.Muxer Model.Reader Model.Demux Model.DemuxFull Spec.PesSpec
-  Proofs.LossProofs Proofs.UnitsProofs Proofs.PesRoundTrip Proofs.MuxerProofs.
+  Model.Muxer Model.Reader Model.Demux Model.DemuxFull Spec.MuxSpec Spec.PesSpec Spec.PacketSpec
+  Proofs.LossProofs Proofs.UnitsProofs Proofs.PesRoundTrip Proofs.MuxerProofs Proofs.MuxerPackets Proofs.DemuxProofs
+  Proofs.PsiSiLink Proofs.PsiDescLink Proofs.RoundTripPkt Proofs.RoundTripDemux Proofs.RoundTripUnit Proofs.RoundTripL1
+  Proofs.PsiUserDesc Proofs.RoundTripTables Proofs.RoundTripMux Proofs.RoundTripRun Proofs.RoundTripDesc Proofs.RoundTripExamples.
 Import ListNotations.
 Open Scope Z_scope.
 
@@ -39,18 +45,172 @@ Theorem C01_whole_packets : forall p bs, write_packet p C_MpegTsPacketSize = Ok 
 Proof. intros p bs. exact (write_packet_size p C_MpegTsPacketSize bs). Qed.
 Print Assumptions C01_whole_packets.
 
-(* the composed statement (not yet closed as one theorem) *)
-Definition demux_all (bytes : list Z) : list (res DemuxerData) :=
-  let fix go (fuel : nat) (s : dstate) :=
-    match fuel with
-    | O => []
-    | S k => let '(r, s') := next_data full_parsers None no_skip s in
-             match r with Err c => if c =? E_nomore then [] else r :: go k s' | _ => r :: go k s' end
-    end in
-  go (3 * length bytes + 8)%nat (init_dstate (new_reader bytes None Seekable) 188).
+(* ---- level 1: one WriteData, demultiplexed alone ----
+   For a reachable muxer state (ms_inv: C04_reachable_inv), a WriteData inside the property's domain
+   (Proofs.RoundTripL1.data_in_domain: PID 0x20..0x1FFE other than 0x1000 with a stream added on it; adaptation field,
+   if any, inside C11's domain with the writer-internal members zero (S1); PES header inside C12's domain once the
+   stream id is filled in; non-empty byte payload) that succeeds without emitting tables, and a demuxer (packet size
+   188) whose reader holds exactly the bytes of that call, whose pool and buffer are empty and whose program map does
+   not contain the PID:  the first NextData returns exactly the PES that was written -- PID, payload bytes, the header
+   with the derived fields a parser fills in (observed_header), and as FirstPacket the header and adaptation field of
+   the unit's first payload packet as parsePacket reports them -- and the next one ErrNoMorePackets. *)
+Theorem C01_roundtrip_one_unit : forall s d s' p ctx h0 data dem,
+  ms_inv s -> data_in_domain s d ctx h0 data -> write_data s d = (s', p) -> pa_res p = Ok tt ->
+  starts_with_tables (pa_pkts p) = false ->
+  (d_pb dem = Some (mk_pbuf 188) \/ (d_pb dem = None /\ d_opt_size dem = 188)) ->
+  reader_ok (d_reader dem) -> r_rest (d_reader dem) = concat (concat (pa_groups p)) ->
+  d_pool dem = [] -> d_buffer dem = [] -> pm_mem (d_pm dem) (MuxerData_PID d) = false ->
+  exists p1 rest dem1 dem2,
+    filter pkt_has_payload (pa_pkts p) = p1 :: rest /\
+    next_data full_parsers None no_skip dem =
+      (Ok (pes_datum (MuxerData_PID d) (obs_pkt p1) (filled_header h0 (ec_es ctx)) data), dem1) /\
+    next_data full_parsers None no_skip dem1 = (Err E_nomore, dem2).
+Proof. exact roundtrip_one_unit. Qed.
+Print Assumptions C01_roundtrip_one_unit.
 
-Definition C01_roundtrip_full : Prop := forall period ops,
-  (* for every history of Add / Remove / SetPCRPID / WriteTables / WriteData inside the property's domain *)
-  let outs := snd (mux_run (new_muxer period) ops) in
-  let bytes := concat (map mout_bytes outs) in
-  Forall (fun r => exists d, r = Ok d) (demux_all bytes).
+(* the hypotheses are satisfiable: after Add 0x101 (H.264); SetPCRPID 0x101; WriteData (300 bytes, emits the tables),
+   a second WriteData of 500 bytes with a PTS is in the domain, succeeds and emits no tables (3 packets) *)
+Example C01_roundtrip_one_unit_inhabited :
+  ms_inv rt_state /\ data_in_domain rt_state (rt_data 93600 500) rt_ctx (rt_h0 93600) (rt_payload 500) /\
+  exists s' p, write_data rt_state (rt_data 93600 500) = (s', p) /\ pa_res p = Ok tt /\
+               starts_with_tables (pa_pkts p) = false /\ length (pa_pkts p) = 3%nat.
+Proof.
+  split; [exact rt_state_inv|]. split; [exact rt_domain|].
+  eexists _, _. split; [vm_compute; reflexivity|]. repeat split; reflexivity.
+Qed.
+
+(* the first payload packet is the unit's first packet and carries the caller's adaptation field (stuffing aside)
+   whenever that field leaves room for the PES header *)
+Theorem C01_first_packet : forall pid h af data unit p1 rest,
+  unit_facts pid h af true data unit -> data <> [] -> filter pkt_has_payload unit = p1 :: rest ->
+  (C_MpegTsPacketSize - (1 + C_mpegTsPacketHeaderSize + af_size_opt af) <?
+     C_pesHeaderLength + calcPESOptionalHeaderLength (PESHeader_OptionalHeader h)) = false ->
+  first_ok af p1 /\ exists tl, unit = p1 :: tl.
+Proof. exact first_packet_af. Qed.
+Print Assumptions C01_first_packet.
+
+(* C11 for every packet the Muxer builds (mux_wf: 13-bit PID, adaptation field in C11's domain, byte payload that
+   fits): 188 bytes that parsePacket turns back into the packet, derived fields filled in, counter reduced to its 4 bits,
+   payload followed by the 0xFF fill when it was shorter than the room *)
+Theorem C01_parse_mux_packet : forall q, mux_wf q ->
+  length (pkt_bytes q) = 188%nat /\ bytes_ok (pkt_bytes q) /\ parse_packet_bytes (pkt_bytes q) = Ok (obs_pkt q).
+Proof. exact parse_mux_pkt. Qed.
+Print Assumptions C01_parse_mux_packet.
+
+(* ---- the composed round trip over whole histories (levels 2 and 3) ----
+   Vocabulary (Proofs/RoundTripRun.v, all executable, nothing refers to how the demuxer computes):
+     demux_all bytes      the results of successive NextData calls (packet size 188, no skipper, no packets parser) on
+                          a fresh demuxer reading [bytes], up to the first ErrNoMorePackets;
+     expect s pend ops    what must come out, call by call:
+                            - a call whose packets start with PAT;PMT (WriteTables, or WriteData when the tables are
+                              due): the PAT (program 1 -> PID 0x1000) and the PMT listing exactly the streams
+                              configured at that moment, in insertion order, with the PCR PID (tables_out);
+                            - a successful WriteData on PID x: the PES written by the PREVIOUS WriteData on x, if any
+                              (the demuxer delivers a unit when the next one starts) -- payload bytes, header with the
+                              derived fields (observed_header: stream id filled in from the stream type, PTS/DTS/ESCR
+                              ..., PES_packet_length by the length rule), PID, and FirstPacket = header and
+                              adaptation field of the unit's first payload packet as parsePacket reports them
+                              (pes_datum; C01_first_packet: that is the caller's adaptation field whenever it leaves
+                              room for the PES header);
+                            - at end of stream: the last PES of every PID, in increasing PID order;
+     history_ok D s ops   the domain: no call panics; no WritePacket (S7); every stream configured is on a PID the
+                          demuxer treats as PES (0x20..0x1FFE except 0x1000: S2), has a stream type that fits 8 bits and
+                          descriptors in the domain D of the table theorems; a WriteData either succeeds and is in
+                          data_in_domain (see C01_roundtrip_one_unit) or fails without emitting anything (unknown PID,
+                          tables that cannot be generated).  AddElementaryStream (explicit or automatic PID),
+                          RemoveElementaryStream (a PID added again carries on its counter), SetPCRPID, WriteTables in
+                          any order and number.
+   Statement: every result is Ok, and the data are exactly [expect], in this order -- nothing lost, duplicated,
+   reordered or reported as an error.  D is the descriptor domain of C13/C14: any relation between descriptor lists and
+   byte strings for which parseDescriptors inverts the loop (desc_premises), the writer emits those bytes (desc_bytes)
+   and the Muxer's PMT size check adds up their number. *)
+Theorem C01_roundtrip : forall (D : list Descriptor -> list Z -> Prop),
+  desc_premises D -> (forall ds bytes, D ds bytes -> desc_bytes ds bytes) -> D [] [] ->
+  (forall ds bytes, D ds bytes ->
+     fold_left (fun k d => k + (2 + Desc.calc_descriptor_length d)) ds 0 = Z.of_nat (length bytes)) ->
+  forall period ops, history_ok D (new_muxer period) ops ->
+  demux_all (concat (map mout_bytes (snd (mux_run (new_muxer period) ops)))) =
+  map Ok (expect (new_muxer period) [] ops).
+Proof. exact roundtrip_history. Qed.
+Print Assumptions C01_roundtrip.
+
+(* ... and without any premise for streams that carry no descriptors *)
+Theorem C01_roundtrip_nodesc : forall period ops, history_ok no_desc16 (new_muxer period) ops ->
+  demux_all (concat (map mout_bytes (snd (mux_run (new_muxer period) ops)))) =
+  map Ok (expect (new_muxer period) [] ops).
+Proof. exact roundtrip_history_nodesc. Qed.
+Print Assumptions C01_roundtrip_nodesc.
+
+(* ... and for streams whose descriptors are user-defined (private: tags 0x80..0xFE, bodies of 0..255 bytes, given with
+   Length = body size as a parser returns them) or absent *)
+Theorem C01_roundtrip_user_desc : forall period ops, history_ok ud_desc (new_muxer period) ops ->
+  demux_all (concat (map mout_bytes (snd (mux_run (new_muxer period) ops)))) =
+  map Ok (expect (new_muxer period) [] ops).
+Proof. exact roundtrip_history_ud. Qed.
+Print Assumptions C01_roundtrip_user_desc.
+
+(* what the PES datum listed by [expect] for a successful WriteData is, in terms of the call's arguments: PID, exactly
+   the payload, the header written (stream id filled in) with the derived fields a parser computes, FirstPacket = header
+   and adaptation field of the unit's first payload packet, which carries the caller's adaptation field (at most with
+   stuffing added) whenever that field leaves room for the PES header *)
+Theorem C01_expected_pes : forall s d s' p ctx h0 data,
+  ms_inv s -> data_in_domain s d ctx h0 data -> write_data s d = (s', p) -> pa_res p = Ok tt ->
+  let x := MuxerData_PID d in
+  let h := filled_header h0 (ec_es ctx) in
+  exists p1 rest,
+    filter (unit_filter x) (pa_pkts p) = p1 :: rest /\
+    data_out s d (pa_pkts p) = Some (pes_datum x (obs_pkt p1) h data) /\
+    DemuxerData_PID (pes_datum x (obs_pkt p1) h data) = x /\
+    DemuxerData_PES (pes_datum x (obs_pkt p1) h data) =
+      Some {| PESData_Data := data; PESData_Header := Some (observed_header h (Z.of_nat (length data))) |} /\
+    DemuxerData_FirstPacket (pes_datum x (obs_pkt p1) h data) = Some (first_packet_of (obs_pkt p1)) /\
+    Packet_AdaptationField (first_packet_of (obs_pkt p1)) = option_map observed_af (Packet_AdaptationField p1) /\
+    ((C_MpegTsPacketSize - (1 + C_mpegTsPacketHeaderSize + af_size_opt (MuxerData_AdaptationField d)) <?
+        C_pesHeaderLength + calcPESOptionalHeaderLength (PESHeader_OptionalHeader h)) = false ->
+     first_ok (MuxerData_AdaptationField d) p1).
+Proof. exact data_out_spec. Qed.
+Print Assumptions C01_expected_pes.
+
+(* the same read per PID, as the property is worded: every result is Ok, and for every PID other than those of the
+   tables the data delivered on it are exactly the PES written on it -- one per successful WriteData, in call order
+   (written_on), none lost, duplicated or reordered *)
+Theorem C01_roundtrip_per_pid : forall (D : list Descriptor -> list Z -> Prop),
+  desc_premises D -> (forall ds bytes, D ds bytes -> desc_bytes ds bytes) -> D [] [] ->
+  (forall ds bytes, D ds bytes ->
+     fold_left (fun k d => k + (2 + Desc.calc_descriptor_length d)) ds 0 = Z.of_nat (length bytes)) ->
+  forall period ops, history_ok D (new_muxer period) ops ->
+  exists L, demux_all (concat (map mout_bytes (snd (mux_run (new_muxer period) ops)))) = map Ok L /\
+    forall x, x <> C_PIDPAT -> x <> C_pmtStartPID -> filter (on_x x) L = written_on x (new_muxer period) ops.
+Proof. exact roundtrip_per_pid. Qed.
+Print Assumptions C01_roundtrip_per_pid.
+
+(* the hypotheses are satisfiable: Add 0x101 (H.264); SetPCRPID 0x101; WriteData (PTS, 300 bytes: emits the tables first);
+   WriteData (PTS, 500 bytes); WriteTables -- and what must come out is PAT, PMT, the first PES (when the second unit
+   starts), PAT, PMT, and the second PES at end of stream *)
+Example C01_roundtrip_inhabited :
+  history_ok no_desc16 (new_muxer 40) rt_hist /\
+  map DemuxerData_PID (expect (new_muxer 40) [] rt_hist) = [0; 4096; 257; 0; 4096; 257] /\
+  map (fun d => match DemuxerData_PES d with Some pes => length (PESData_Data pes) | None => O end)
+      (expect (new_muxer 40) [] rt_hist) = [0; 0; 300; 0; 0; 500]%nat.
+Proof. split; [exact rt_history_ok|exact rt_expect_shape]. Qed.
+
+(* one call: what the demuxer delivers while it consumes the packets of the call, and the invariant that ties the
+   Muxer's state and the data still pending to the demuxer's pool and program map (Proofs.RoundTripRun.inv) *)
+Theorem C01_step : forall (D : list Descriptor -> list Z -> Prop),
+  desc_premises D -> (forall ds bytes, D ds bytes -> desc_bytes ds bytes) -> D [] [] ->
+  (forall ds bytes, D ds bytes ->
+     fold_left (fun k d => k + (2 + Desc.calc_descriptor_length d)) ds 0 = Z.of_nat (length bytes)) ->
+  forall s pend pl pm o s' p,
+  inv D s pend pl pm -> mux_step_part s o = (s', p) -> op_ok D s o s' p ->
+  exists pl' pm',
+    feed full_parsers pl pm (map obs_pkt (pa_pkts p)) = Some (pl', pm', fst (step_out s pend o p)) /\
+    inv D s' (snd (step_out s pend o p)) pl' pm' /\
+    Forall mux_wf (pa_pkts p) /\
+    (length (fst (step_out s pend o p)) + length (snd (step_out s pend o p)) <= length pend + length (pa_pkts p))%nat.
+Proof. exact step_feed. Qed.
+Print Assumptions C01_step.
+
+(* NextData calls over a reader of 188-byte packets = the pure feed / drain over the parsed packets *)
+Theorem C01_calls_are_feed : forall P L s fuel, yields P s L -> (length L < fuel)%nat -> nd_all P fuel s = map Ok L.
+Proof. exact nd_all_yields. Qed.
+Print Assumptions C01_calls_are_feed.
